@@ -249,6 +249,16 @@ fn c13(quick: bool) -> PropRun {
             scs.push(spec(&format!("C13.{}", name), &cfg, &si, env, d, oracles));
         }
     }
+    // fast step cadences (1 ms, 7 ms) against low ceilings that are not whole bytes per step
+    for bw in [1472u32, 1600, 2500, 5000] {
+        for cad in [1u64, 7] {
+            let cfg = LwCfg { pwin: 4096, fwin: 4096, bw: [bw, bw], ..LwCfg::small() };
+            let si = Arc::new(ScriptInfo::new((0..30).map(|i| send(0, 0, (i % 2) as u8, Reliable, 1400)).collect()));
+            let env = LwEnv { fates: FATES_NONE, deltas: leak(&[cad, 0, 20, 1000]), dev_rounds: if quick { 4 } else { 8 }, dev_start: 0, max_rounds: (6000 / cad) as usize, skip_choice: false, flush_choice: true,
+                              blackouts: &[], stop_when_idle: false, fair_delta: cad, slow_after: usize::MAX, slow_delta: 250, fuel: 2_000_000, shifts: &[] };
+            scs.push(spec("C13.fast-cadence", &cfg, &si, env, if quick { 1 } else { 2 }, oracles));
+        }
+    }
     PropRun { level: "model_checking", scenarios: scs, units: vec![], replay_case: None, summary: lw_summary(
         "every pair of emission instants of every execution is checked against bytes <= C*(dt + RTT*) + 1472 (+1 byte per step for rounding), C = the connection's negotiated ceiling, RTT* = the largest estimate reported from the step before the interval to its end",
         json!({"d": d, "ceilings_Bps": [1472, 5000, 100_000, 2_000_000], "backlogs": "0, 1, 20, 100 frames, one 60 kB packet, both directions", "deltas_ms": [20, 0, 1, 1000, 60_000], "extra_flushes_per_step": [0, 1, 3]}),
